@@ -76,14 +76,6 @@ class FullGen:
         return x
 
     def width_operand(self):
-        # open finding: the WIDTH operand is never visited - functions that need a call are lost and arrays that occur
-        # only there are never declared; while it is open the operand is built from literals and scalars only
-        if self.on("no_convertible_in_width_read_input"):
-            saved = (self.g.convertible, self.g.arrays, self.temp_bias)
-            self.g.convertible, self.g.arrays, self.temp_bias = False, False, 0
-            x = self.e()
-            self.g.convertible, self.g.arrays, self.temp_bias = saved
-            return x
         return self.e()
 
     def device(self, form=None):
@@ -216,7 +208,7 @@ class FullGen:
     def rw_target(self):
         """READ / INPUT target: subscripts without convertible functions while that finding is open."""
         saved = (self.g.convertible, self.temp_bias)
-        if self.on("no_convertible_in_width_read_input"):
+        if self.on("no_convertible_in_read_input_subscripts"):
             self.g.convertible, self.temp_bias = False, 0
         t = self.target()
         self.g.convertible, self.temp_bias = saved
